@@ -34,8 +34,8 @@ CHECKS = {
          "catalogue of enum pairs; indices above two varint bytes outside"),
  "C14": ("§6.C14", "Values differing only in transient fields encode identically (encoder bytes equal the reference that ignores them, for all transient values); decoding sets the declared default (defaults chosen != Default::default()); transient constructors at first/middle/last position give the dedicated error with type and constructor name in both directions; a FieldMadeTransient history encodes.",
          "the 'made optional, later made transient' history is outside the catalogue"),
- "C15": ("§6.C15", "Vec<u8>, BytesMut, serialize_to_bytes, serialize_to_byte_vec and a recording user output produce the reference bytes and SizeCalculator reports their count, for catalogue values; SliceInput, OwnedInput and DeserializationContext agree result-by-result on every program of 2 (3) primitive reads over every buffer <= 6 bytes with full-width symbolic counts.",
-         "3 operations, 6 bytes"),
+ "C15": ("§6.C15", "Vec<u8>, BytesMut, serialize_to_bytes, serialize_to_byte_vec and a recording user output produce the reference bytes and SizeCalculator reports their count, for catalogue values; SliceInput, OwnedInput and DeserializationContext agree on the result of one symbolic primitive read (9 primitives, full-width symbolic count) after a symbolic skip over every buffer <= 6 bytes, and on where the input ends afterwards.",
+         "one operation after a skip (programs of 2-3 operations do not finish: tier=off); sinks on six catalogue types in the quick tier"),
  "C17": ("§6.C17", "Every Unicode scalar value for char (Ok with the reference bytes iff <= U+FFFF, else UnsupportedCharacter); every exact size_hint and zero-width Vec/slice length > i32::MAX gives LengthTooLarge; transient constructors; FieldPosition byte for every (chunk, position); a failed encoding hands back no output; nothing panics.",
          "UnknownFieldReferenceInEvolutionStep and the 255-step limit outside"),
  "C18": ("§6.C18", "Sequential histories only: after an arbitrary prior encode call and an arbitrary prior decode call, encode/decode results equal the reference (which depends on the argument alone), repeated calls give the same bytes, a failed encoding does not affect the next call.",
